@@ -141,13 +141,40 @@ func (sdbh *SemaDBHandlers) HandleListCollections(w http.ResponseWriter, r *http
 		log.Error().Err(err).Msg("ListCollections failed")
 		return
 	}
-	colItems := make([]ListCollectionItem, len(collections))
-	for i, col := range collections {
-		colItems[i] = ListCollectionItem{Id: col.Id, VectorSize: col.IndexSchema["vector"].VectorVamana.VectorSize, DistanceMetric: col.IndexSchema["vector"].VectorVamana.DistanceMetric}
+	colItems := make([]ListCollectionItem, 0, len(collections))
+	for _, col := range collections {
+		// Collections created with a newer API version may not have the
+		// single "vector" index the v1 API is built around, they are not
+		// listed here.
+		if !isV1Collection(col) {
+			continue
+		}
+		colItems = append(colItems, ListCollectionItem{Id: col.Id, VectorSize: col.IndexSchema["vector"].VectorVamana.VectorSize, DistanceMetric: col.IndexSchema["vector"].VectorVamana.DistanceMetric})
 	}
 	resp := ListCollectionsResponse{Collections: colItems}
 	utils.Encode(w, http.StatusOK, resp)
 	// ---------------------------
+}
+
+// ---------------------------
+
+// The v1 API only knows collections with a vamana index on the "vector" property.
+func isV1Collection(col models.Collection) bool {
+	vectorIndex, ok := col.IndexSchema["vector"]
+	return ok && vectorIndex.VectorVamana != nil
+}
+
+/* The handlers that read the parameters of the "vector" index refuse
+ * collections that do not have it, i.e. were created with a newer API version,
+ * instead of dereferencing a nil pointer. Returns false if the request has
+ * been answered. */
+func requireV1Collection(w http.ResponseWriter, col models.Collection) bool {
+	if isV1Collection(col) {
+		return true
+	}
+	errMsg := fmt.Sprintf("collection %s cannot be used with the v1 api", col.Id)
+	utils.Encode(w, http.StatusBadRequest, map[string]string{"error": errMsg})
+	return false
 }
 
 // ---------------------------
@@ -204,6 +231,9 @@ type GetCollectionResponse struct {
 func (sdbh *SemaDBHandlers) HandleGetCollection(w http.ResponseWriter, r *http.Request) {
 	// ---------------------------
 	collection := r.Context().Value(collectionContextKey).(models.Collection)
+	if !requireV1Collection(w, collection) {
+		return
+	}
 	// ---------------------------
 	shards, err := sdbh.clusterNode.GetShardsInfo(collection)
 	if errors.Is(err, cluster.ErrShardUnavailable) {
@@ -299,6 +329,9 @@ func (sdbh *SemaDBHandlers) HandleInsertPoints(w http.ResponseWriter, r *http.Re
 	// ---------------------------
 	// Get corresponding collection
 	collection := r.Context().Value(collectionContextKey).(models.Collection)
+	if !requireV1Collection(w, collection) {
+		return
+	}
 	// ---------------------------
 	// Convert request points into internal points, doing checks along the way
 	points := make([]models.Point, len(req.Points))
@@ -401,6 +434,9 @@ func (sdbh *SemaDBHandlers) HandleUpdatePoints(w http.ResponseWriter, r *http.Re
 	// ---------------------------
 	// Get corresponding collection
 	collection := r.Context().Value(collectionContextKey).(models.Collection)
+	if !requireV1Collection(w, collection) {
+		return
+	}
 	// ---------------------------
 	// Convert request points into internal points, doing checks along the way
 	points := make([]models.Point, len(req.Points))
@@ -534,6 +570,9 @@ func (sdbh *SemaDBHandlers) HandleSearchPoints(w http.ResponseWriter, r *http.Re
 	// ---------------------------
 	// Get corresponding collection
 	collection := r.Context().Value(collectionContextKey).(models.Collection)
+	if !requireV1Collection(w, collection) {
+		return
+	}
 	// ---------------------------
 	// Check vector dimension
 	if len(req.Vector) != int(collection.IndexSchema["vector"].VectorVamana.VectorSize) {
